@@ -70,6 +70,20 @@ structure Cfg where
   -- host facts (like `littleEndian`): the Python the code runs on
   ntop6Fails : Bool := false   -- `socket.inet_ntop(AF_INET6, …)` raises ValueError (Python built without IPv6)
   supportsV6 : Bool := true    -- `_common.supports_ipv6()`
+  -- the `except` clauses (translator facts; the defaults are the code the proofs were made on)
+  /-- get_proc_inodes: classes of the handlers around `readlink` whose body is `continue` -/
+  linkSkipClasses : List String := ["FileNotFoundError", "ProcessLookupError"]
+  /-- get_proc_inodes, `except OSError as err`: the `errno.X` whose `if err.errno == errno.X:` ends in
+      `continue` (everything else reaches the final `raise`) -/
+  linkSkipErrnos : List String := ["EINVAL", "ENAMETOOLONG"]
+  /-- get_all_inodes: classes of the `except (...): continue` around `get_proc_inodes(pid)` -/
+  allSkipClasses : List String := ["FileNotFoundError", "ProcessLookupError", "PermissionError"]
+  /-- decode_address has `except ValueError: if not supports_ipv6(): raise _Ipv6UnsupportedError from None; raise`
+      around the AF_INET6 `inet_ntop` (false: the ValueError leaves as it is) -/
+  v6RaiseUnsupported : Bool := true
+  /-- process_inet has `except _Ipv6UnsupportedError: continue` around both `decode_address` calls
+      (false: the exception leaves the generator) -/
+  v6SkipLine : Bool := true
   -- `_, laddr, raddr, status, _, _, _, _, _, inode = line.split()[:10]`
   inetN : Nat
   iLaddr : Nat
@@ -124,7 +138,7 @@ def decodeAddress (cfg : Cfg) (addr : Bytes) (family : Nat) : Except Exc Addr :=
           if raw.length = 16 then                  -- struct.unpack('<4I', ip)
             if cfg.ntop6Fails then                 -- inet_ntop raises ValueError:
               -- `if not supports_ipv6(): raise _Ipv6UnsupportedError` else re-raise
-              if cfg.supportsV6 then .error .valueError else .error .ipv6Unsupported
+              if cfg.v6RaiseUnsupported && !cfg.supportsV6 then .error .ipv6Unsupported else .error .valueError
             else .ok (.ip (if cfg.littleEndian then swap32 raw else raw) (p + 1))
           else .error .structError
   | _ => .error .valueError
@@ -197,6 +211,10 @@ def filteredOut (filterPid : Option Nat) (pid : Option Nat) : Bool :=
   | none => false
   | some f => pid != some f
 
+/-- what `_Ipv6UnsupportedError` out of `decode_address` does to the line: `continue`, or (no handler) it leaves -/
+def v6Skip (cfg : Cfg) : Except Exc (Option Row) :=
+  if cfg.v6SkipLine then .ok none else .error .ipv6Unsupported
+
 /-- body of the `for lineno, line in enumerate(f, 1)` loop; `none` = `continue` -/
 def processInetLine (cfg : Cfg) (family type : Nat) (inodes : Inodes) (filterPid : Option Nat)
     (line : Bytes) : Except Exc (Option Raw) :=
@@ -220,11 +238,11 @@ def processInetLine (cfg : Cfg) (family type : Nat) (inodes : Inodes) (filterPid
         | .error e => .error e
         | .ok status =>
           match decodeAddress cfg laddr family with
-          | .error .ipv6Unsupported => .ok none          -- except _Ipv6UnsupportedError: continue
+          | .error .ipv6Unsupported => v6Skip cfg        -- except _Ipv6UnsupportedError: continue
           | .error e => .error e
           | .ok la =>
             match decodeAddress cfg raddr family with
-            | .error .ipv6Unsupported => .ok none
+            | .error .ipv6Unsupported => v6Skip cfg
             | .error e => .error e
             | .ok ra => .ok (some ⟨fd, family, type, la, ra, status, pid⟩)
   | _, _, _, _ => .error .indexError      -- not reachable: the indices are below `inetN`
@@ -424,41 +442,74 @@ abbrev FdEntryE := Nat × LinkRes
 /-- what `os.listdir(f"{procfs}/{pid}/fd")` gives, each name with the outcome of its readlink -/
 abbrev ListRes := Except Errno (List FdEntryE)
 
+/-- errno name as the source spells it after `errno.` (`other`: not told apart by name) -/
+def Errno.name : Errno → String
+  | .enoent => "ENOENT"
+  | .esrch => "ESRCH"
+  | .einval => "EINVAL"
+  | .enametoolong => "ENAMETOOLONG"
+  | .eacces => "EACCES"
+  | .eperm => "EPERM"
+  | .other _ => ""
+
+/-- the Python class of an exception as far as the `except` clauses on this path tell classes apart -/
+def Exc.pyClass : Exc → String
+  | .fileNotFound => "FileNotFoundError"
+  | .processLookup => "ProcessLookupError"
+  | .permissionError => "PermissionError"
+  | .osError _ => "OSError"
+  | .valueError => "ValueError"
+  | .runtimeError => "RuntimeError"
+  | .keyError => "KeyError"
+  | .indexError => "IndexError"
+  | .structError => "error"
+  | .ipv6Unsupported => "_Ipv6UnsupportedError"
+  | .accessDenied => "AccessDenied"
+  | .noSuchProcess => "NoSuchProcess"
+
+def Exc.isOSError : Exc → Bool
+  | .fileNotFound | .processLookup | .permissionError | .osError _ => true
+  | _ => false
+
+/-- does `except cls:` catch `x`? (the class itself, `OSError` for its subclasses, `Exception`/`BaseException`) -/
+def catches (cls : String) (x : Exc) : Bool :=
+  cls == x.pyClass || (x.isOSError && cls == "OSError") || cls == "Exception" || cls == "BaseException"
+
+/-- get_proc_inodes: does the `try` around `readlink` step over errno `e`?
+    `except (<linkSkipClasses>): continue`, then inside `except OSError as err` the `errno.X: … continue` tests -/
+def linkSkips (cfg : Cfg) (e : Errno) : Bool :=
+  cfg.linkSkipClasses.any (fun c => catches c (Exc.ofErrno e)) || cfg.linkSkipErrnos.contains e.name
+
 /-- the `for fd in os.listdir(...)` loop of `get_proc_inodes`, `m` = the `defaultdict` so far -/
-def procLoopE (pid : Nat) : List FdEntryE → Inodes → Except Exc Inodes
+def procLoopE (cfg : Cfg) (pid : Nat) : List FdEntryE → Inodes → Except Exc Inodes
   | [], m => .ok m
   | (fd, r) :: rest, m =>
     match r with
-    | .err .enoent => procLoopE pid rest m          -- except (FileNotFoundError, ProcessLookupError): continue
-    | .err .esrch => procLoopE pid rest m
-    | .err .einval => procLoopE pid rest m          -- not a link: continue
-    | .err .enametoolong => procLoopE pid rest m    -- debug(err); continue
-    | .err e => .error (Exc.ofErrno e)              -- raise
+    | .err e =>
+      if linkSkips cfg e then procLoopE cfg pid rest m      -- the handler says `continue`
+      else .error (Exc.ofErrno e)                           -- raise
     | .ok target =>
       if startsWith socketPrefix target then
-        procLoopE pid rest (m.append ((target.drop 8).dropLast) (pid, fd))
-      else procLoopE pid rest m
+        procLoopE cfg pid rest (m.append ((target.drop 8).dropLast) (pid, fd))
+      else procLoopE cfg pid rest m
 
 /-- `NetConnections.get_proc_inodes(pid)` with the outcome of `os.listdir` and of every `readlink` -/
-def getProcInodesE (pid : Nat) (l : ListRes) : Except Exc Inodes :=
+def getProcInodesE (cfg : Cfg) (pid : Nat) (l : ListRes) : Except Exc Inodes :=
   match l with
   | .error e => .error (Exc.ofErrno e)               -- os.listdir raised
-  | .ok fds => procLoopE pid fds []
+  | .ok fds => procLoopE cfg pid fds []
 
-/-- `except (FileNotFoundError, ProcessLookupError, PermissionError): continue` of get_all_inodes -/
-def allCaught : Exc → Bool
-  | .fileNotFound => true
-  | .processLookup => true
-  | .permissionError => true
-  | _ => false
+/-- `except (<allSkipClasses>): continue` of get_all_inodes -/
+def allCaught (cfg : Cfg) (x : Exc) : Bool :=
+  cfg.allSkipClasses.any (fun c => catches c x)
 
 /-- `NetConnections.get_all_inodes()`: the loop over `pids()`, `m` = `inodes` so far -/
 def allLoopE (cfg : Cfg) : List (Nat × ListRes) → Inodes → Except Exc Inodes
   | [], m => .ok m
   | (pid, l) :: rest, m =>
-    match getProcInodesE pid l with
+    match getProcInodesE cfg pid l with
     | .ok pi => allLoopE cfg rest (mergeProc cfg m pi)
-    | .error x => if allCaught x then allLoopE cfg rest m else .error x
+    | .error x => if allCaught cfg x then allLoopE cfg rest m else .error x
 
 def getAllInodesE (cfg : Cfg) (procs : List (Nat × ListRes)) : Except Exc Inodes :=
   allLoopE cfg procs []
@@ -475,7 +526,7 @@ def retrieveE (cfg : Cfg) (fs : ProcFsE) (kind : String) (pid : Option Nat) :
     match pid with
     | some p =>
       match fs.procs.lookup p with
-      | some l => getProcInodesE p l
+      | some l => getProcInodesE cfg p l
       | none => .error .fileNotFound                 -- no `/proc/<pid>/fd` at all
     | none => getAllInodesE cfg fs.procs
   match inodes? with
